@@ -98,10 +98,13 @@ Muted == {IF k \in DOMAIN IOEnv THEN IOEnv[k] ELSE "" :
 (* arb: "run" when an arbitration start was written at a quiescent point (so it is certainly running before any later  *)
 (*       byte), "due" once a RESETTED / ERROR frame arrived while it runs: a cancellation (as_error or START(SYN)) must   *)
 (*       be observed before the next quiescent point; "off" otherwise (result frame, SYN symbols that may time it out)   *)
+(* parb: ebusd's own view of its arbitration, from what it wrote and what recv told it: TRUE from a written START(m),  *)
+(*       FALSE again once recv reported won / lost / error / timeout, a START(SYN) was written or the transport closed.  *)
+(*       A start request may be refused only while parb holds; a cancellation may not be refused on an open transport.  *)
 (* im / ileft: info automaton, exact only when the request was written at a quiescent point ("idle", "await",      *)
 (*       "run"), otherwise "unspec"                                                                               *)
 MonInit == [pend |-> -1, exp |-> <<>>, nexp |-> <<>>, unk |-> 0, armed |-> FALSE, cj |-> FALSE, rj |-> FALSE,
-            quiet |-> FALSE, arb |-> "off", im |-> "idle", ileft |-> 0, call |-> <<"none", 0>>, txn |-> 0, dat |-> <<>>,
+            quiet |-> FALSE, arb |-> "off", parb |-> FALSE, im |-> "idle", ileft |-> 0, call |-> <<"none", 0>>, txn |-> 0, dat |-> <<>>,
             closed |-> TRUE, closedRs |-> FALSE, bad |-> ""]
 
 Fail(m, sig) == IF m.bad = "" /\ sig \notin Muted THEN [m EXCEPT !.bad = sig] ELSE m
@@ -170,7 +173,8 @@ Resync(m) ==
 
 MonRv(m, res, sym, as, T) ==
   LET r  == IF as = 6 THEN "won" ELSE IF as = 4 THEN "lost" ELSE "none"
-      ma == IF as = 2 THEN [m EXCEPT !.arb = "off"] ELSE m
+      mp == IF as \in {2, 4, 5, 6} THEN [m EXCEPT !.parb = FALSE] ELSE m
+      ma == IF as = 2 THEN [mp EXCEPT !.arb = "off"] ELSE mp
       m0 == IF as = 2 /\ ~(m.cj \/ res = 3) THEN Fail(ma, "C14:arbitration-cancelled-without-cause") ELSE ma
       \* the data notification of a delivery is judged only when the delivery itself is the expected one
       clean == m.exp # <<>> /\ Head(m.exp).s = sym /\ Head(m.exp).r = r
@@ -219,13 +223,18 @@ MonTx(m, bytes) ==
                             !.nexp = [j \in 1..Len(@) |-> IF @[j].c = <<"info", 0>> THEN [@[j] EXCEPT !.opt = TRUE] ELSE @[j]]]
       isStart == Len(bytes) = 2 /\ IsFirst(bytes[1]) /\ CmdOf(bytes[1]) = REQ_START
       m3 == IF ~isStart THEN m2
-            ELSE IF bytes # Seq2(REQ_START, SYN) /\ m2.quiet /\ m2.exp = <<>> /\ m2.pend = -1 THEN [m2 EXCEPT !.arb = "run"]
-            ELSE [m2 EXCEPT !.arb = "off"] IN
+            ELSE IF bytes # Seq2(REQ_START, SYN) /\ m2.quiet /\ m2.exp = <<>> /\ m2.pend = -1 THEN [m2 EXCEPT !.arb = "run", !.parb = TRUE]
+            ELSE IF bytes # Seq2(REQ_START, SYN) THEN [m2 EXCEPT !.arb = "off", !.parb = TRUE]
+            ELSE [m2 EXCEPT !.arb = "off", !.parb = FALSE] IN
   [m3 EXCEPT !.txn = IF @ < 2 THEN @ + 1 ELSE @]
 
 MonRet(m, kind, rc) ==
   LET once == kind \in {"send", "info", "open"} \/ (kind = "start" /\ m.call[2] # SYN)
-      m1 == IF rc = 0 /\ once /\ m.txn # 1 THEN Fail(m, "C14:request-not-written-once:" \o kind) ELSE m
+      m0 == IF kind = "start" /\ rc # 0 /\ ~m.closed
+            THEN IF m.call[2] = SYN THEN Fail(m, "C14:arbitration-cancel-refused")
+                 ELSE IF ~m.parb THEN Fail(m, "C14:arbitration-start-refused-without-running-arbitration") ELSE m
+            ELSE m
+      m1 == IF rc = 0 /\ once /\ m0.txn # 1 THEN Fail(m0, "C14:request-not-written-once:" \o kind) ELSE m0
       wantDat == IF kind = "send" /\ rc = 0 THEN <<<<m.call[2], 0>>>> ELSE <<>>
       m2 == IF m1.dat # wantDat THEN Fail(m1, "C14:data-notification-mismatch") ELSE m1 IN
   [m2 EXCEPT !.call = <<"none", 0>>, !.dat = <<>>]
@@ -238,7 +247,7 @@ MonEv(m, e) ==
     [] e[1] = "tx"    -> MonTx(m, e[2])
     [] e[1] = "call"  -> [m EXCEPT !.call = <<e[2], e[3]>>, !.txn = 0, !.dat = <<>>]
     [] e[1] = "ret"   -> MonRet(m, e[2], e[3])
-    [] e[1] = "close" -> [m EXCEPT !.closed = TRUE, !.closedRs = m.rj]
+    [] e[1] = "close" -> [m EXCEPT !.closed = TRUE, !.closedRs = m.rj, !.parb = FALSE]
     [] e[1] = "open"  -> [Resync(m) EXCEPT !.closed = FALSE, !.closedRs = FALSE, !.im = "idle", !.cj = FALSE, !.rj = FALSE]
     [] e[1] = "reset" -> [MonInit EXCEPT !.bad = m.bad]
     [] OTHER -> m                                                          \* "to", "clk"
